@@ -11,7 +11,8 @@ from vk.render_verilog import render_verilog, render_bench, fit_to_lib, LIBS
 from vk.props.c09 import structural
 
 ID = 'C11'
-RULE = ('Hypothesis-generated abstract netlists rendered (i) as structural Verilog over each built-in library (hand-written cell/pin tables): scalar '
+RULE = ('Part ties (enumerated): small modules of continuous assignments (constants through one or two named wires, pass-through, a concatenation that uses a wire on both sides) in every statement order, parsed and simulated. Part render: ' +
+        'Hypothesis-generated abstract netlists rendered (i) as structural Verilog over each built-in library (hand-written cell/pin tables): scalar '
         'and bus ports with ascending/descending ranges, 1-bit buses, declared/implicit/escaped wire names, wire buses, named pin connections in '
         'random order, unconnected and constant pins, plain and scan flip-flops, physical-only cells (antenna, filler, decap, header) in between, continuous assigns (single, concatenations), random statement '
         'order, whitespace, three comment kinds and attributes, both branchforks settings; (ii) as ISCAS bench text. Oracle: own evaluator on the '
@@ -184,6 +185,8 @@ def prop(case):
     if truth.get('nphys'): labels.append('physical_only_cells')
     if second is not None: labels.append('two_modules_in_one_text')
     if '\\' in text: labels.append('escaped_names')
+    import re as _re
+    if _re.search(r'assign [^;]*=\s*cw\d+\s*;[^;]*assign cw\d+', text): labels.append('constant_through_wire_use_before_definition')
     return Obs(((asc and desc) or has_assign) and complex_cell, labels, checks=2 * sims * (len(nl['po']) + nst))
 
 
@@ -192,4 +195,46 @@ def _ranges(text):
     return [(int(a), int(b)) for a, b in re.findall(r'\[(\d+)\s*:\s*(\d+)\]', text)]
 
 
-PARTS = [Part('render', prop, strategy=cases, quick=(8, 120), thorough=(16, 1500))]
+TIE_STMTS = {   # continuous assignments of a small module with inputs a, b and outputs o0..o3; "assignments may appear in any order"
+    'A': "assign o0 = w0;", 'B': "assign w0 = w1;", 'C': "assign w1 = 1'b1;", 'D': "assign o1 = 1'b0;", 'E': "assign o2 = a;",
+    'F': "assign {o3, w2} = {w2, b};", 'G': "assign o3 = w3;", 'H': "assign w3 = b;"}
+TIE_SETS = ['ABCD', 'ABC', 'ABCDE', 'DE', 'ABCF', 'ABCGH', 'CDGH']      # every wire used has a driver (what an output assigned from an undriven wire reports is not settled by the statement)
+
+
+def enum_ties(tier):
+    """every order of the assign statements of a few constant / pass-through modules"""
+    for sel in TIE_SETS:
+        perms = list(itertools.permutations(sel))
+        step = 1 if len(perms) <= 24 or tier == 'thorough' else 5
+        for j in range(0, len(perms), step):
+            yield dict(stmts=''.join(perms[j]))
+
+
+def prop_ties(case):
+    from kyupy import verilog
+    from kyupy.logic_sim import LogicSim
+    sel = case['stmts']
+    outs = [o for o in ('o0', 'o1', 'o2', 'o3') if any(o in TIE_STMTS[k].split('=')[0] for k in sel)]
+    wires = sorted({w for k in sel for w in ('w0', 'w1', 'w2', 'w3') if w in TIE_STMTS[k]})
+    text = f"module tie (a, b, {', '.join(outs)});\n  input a, b;\n  output {', '.join(outs)};\n" + \
+           (f"  wire {', '.join(wires)};\n" if wires else '') + ''.join(f'  {TIE_STMTS[k]}\n' for k in sel) + 'endmodule\n'
+    c = verilog.parse(text)
+    structural(c, 'parsed tie module')
+    if [n.name for n in c.io_nodes] != ['a', 'b'] + outs:
+        raise Violation(f'ports {[n.name for n in c.io_nodes]} != {["a", "b"] + outs}\n{text}')
+    sim = LogicSim(c, 4, m=2)
+    mv = np.zeros((sim.s_len, 4), dtype=np.uint8)
+    mv[0] = [0, 3, 0, 3]; mv[1] = [0, 0, 3, 3]
+    sim.s[0] = pack_bp(mv)
+    sim.s_to_c(); sim.c_prop(); sim.c_to_s()
+    res = unpack_bp(sim.s[1], 4)
+    want = {'o0': [3, 3, 3, 3] if 'B' in sel and 'C' in sel else [0, 0, 0, 0], 'o1': [0, 0, 0, 0], 'o2': [0, 3, 0, 3], 'o3': [0, 0, 3, 3]}
+    for j, o in enumerate(outs):
+        if [int(x) for x in res[2 + j]] != want[o]:
+            raise Violation(f'output {o} = {[int(x) for x in res[2 + j]]} for (a, b) = 00, 10, 01, 11; the module computes {want[o]}\n{text}')
+    return Obs(sel.index('C') > 0 if 'C' in sel else True, ['use_before_definition' if ('A' in sel and 'C' in sel and sel.index('A') < sel.index('C')) else 'definition_first',
+                      f'{len(sel)}_statements'], checks=len(outs) * 4)
+
+
+PARTS = [Part('ties', prop_ties, enumerate=enum_ties, quick=(2, 0), thorough=(4, 0)),
+         Part('render', prop, strategy=cases, quick=(8, 120), thorough=(16, 1500))]
